@@ -15,3 +15,12 @@ func (t Type) VerifFloatBits() (uint64, bool) {
 
 // VerifNewFloatBits builds a float value from its bit pattern.
 func VerifNewFloatBits(bits uint64) Type { return Type{typ: floatT, morph: bits} }
+
+// VerifArrayCap returns len and cap of the Go slice behind an array value.
+func (t Type) VerifArrayCap() (int, int, bool) {
+	a, ok := t.ToArray()
+	if !ok {
+		return 0, 0, false
+	}
+	return len(a), cap(a), true
+}
